@@ -209,6 +209,19 @@ def cases_for(strat, n, rng, count):
                 out.append(("dd%d" % k, fam_dd(n, rng)))
             else:
                 out.append(("bdd%d" % k, fam_bdd(n, rng)))
+    if n <= 9 and n >= 2:
+        # DENSE unimodular matrices (unit triangular factors with most entries +-1): every term of every unrolled formula
+        # (_lufact<T,1..8>, the closed forms) is non-trivial, and all intermediate values are integers, so the rational
+        # carrier never leaves its range (dense dominant matrices do at n >= 7 for the LU based strategies)
+        for k in range(4):
+            A = fam_ldu(n, leaves, rng, dens=0.8 * n)
+            if strat in PIV:
+                if n >= 3 and k % 2 == 0: p, _ = sorted_cycles(n, rng)
+                else:
+                    p = list(range(n))
+                    for (a, b) in involution(n, rng, 1): p[a], p[b] = b, a
+                A = apply_rows(A, p)
+            out.append(("ldud%d" % k, A))
     return out
 
 def case_line(strat, n, tag, A):
@@ -304,7 +317,9 @@ def short(inp):
 
 def run_rat(v, tier, seed, wd, plan=None, lines=None, verbose=False):
     plan = plan or rat_plan(tier)
+    lines_given = lines
     lines = lines if lines is not None else rat_cases(tier, seed, plan)
+    per_pair = {}
     cfile = os.path.join(wd, "cases.txt")
     with open(cfile, "w") as fh:
         fh.write("\n".join(lines) + "\n")
@@ -360,12 +375,23 @@ def run_rat(v, tier, seed, wd, plan=None, lines=None, verbose=False):
         if s in ("rank3", "rank4"): s = "batched-" + s
         if "P" in mk and max_cycle(mk["P"]) >= 3: stats["pivot_cycle_ge3"] += 1
         stats["by_strategy"][s] = stats["by_strategy"].get(s, 0) + 1
+        per_pair[(s, n)] = per_pair.get((s, n), 0) + 1
         stats["sizes"].setdefault(s, set()).add(n)
         if not s.startswith("batched"):
             stats["size_classes"].setdefault(s, set()).add(size_class(n))
         tag = d.get("id", "")
         if tag.startswith("rp"): stats["needs_pivot"] += 1
         if "ldu" in tag: stats["split_sensitive"] += 1
+    # every (entry point, size) of the plan must have been judged on at least two defined, conclusive cases
+    holes = []
+    for tu in plan:
+        for (s_, n_) in tu:
+            if s_.startswith("batched"): continue
+            if per_pair.get((s_, n_), 0) < (2 if lines_given is None else 1): holes.append("%s/%d:%d" % (s_, n_, per_pair.get((s_, n_), 0)))
+    stats["coverage_holes"] = holes
+    if holes and not any(nf is False for _, nf, _ in v.violations) and not v.violations:
+        v.violation("coverage-hole rat " + ",".join(holes[:8]), {"kind": "harness-failure", "what": "coverage hole",
+                    "note": "fewer than two defined conclusive exact cases for these (entry point, size) pairs: " + ", ".join(holes)}, nofail=True)
     stats["sizes"] = {k: sorted(x) for k, x in stats["sizes"].items()}
     stats["size_classes"] = {k: sorted(x) for k, x in stats["size_classes"].items()}
     return stats, samples
@@ -378,14 +404,18 @@ def real_plan(tier):
     if tier == "quick":
         resid = [(s, n) for n in (2, 3, 4, 5, 8, 9) for s in ("simple", "simplepiv")] + [("simple", 17)]
         resid += [("simplelu", 3), ("simplelu", 7), ("blocklupiv", 9), ("blocklu", 9), ("simplelupiv", 6)]
-        resid += [(s, n) for n in (4, 9) for s in ("ut", "lut")]
+        resid += [(s, n) for n in (4, 9) for s in ("ut", "lut")] + [(s, 8) for s in ("simplelu", "blocklu", "simplelupiv", "blocklupiv")]
         # the intrinsic leaf kernels (n = 2, 4; float and double) and what is built from them (5..9), every entry point
         exact = list(resid) + [(s, n) for n in (1, 2, 3, 4) for s in ("simple", "simplepiv", "ut", "lut")]
-        exact += [(s, n) for n in (6, 7) for s in ("simple", "simplepiv")] + [(s, 3) for s in ("simplelupiv", "blocklu")]
+        exact += [(s, n) for n in (6, 7) for s in ("simple", "simplepiv")]
+        # the eight hand-unrolled _lufact<T,1..8> kernels and the first loop / recursive size, all four LU strategies
+        exact += [(s, n) for n in range(1, 10) for s in ("simplelu", "blocklu", "simplelupiv", "blocklupiv")]
         exact += [(s, n) for n in (4, 5) for s in ("lazy", "lazyadd", "lazymul", "expr")] + [("lazy", 2), ("lazysub", 4), ("lazymull", 4), ("lazymuleq", 4)]
         exact += [("utexpr", 4), ("lutexpr", 4)]
         exact += [("batched", (3, 2)), ("batched", (2, 3)), ("batched", (4, 4)), ("batched4", (2, 2, 2)), ("batched4", (2, 2, 4)), ("batched4", (2, 2, 3))]
-        return [(resid, sorted(set(exact), key=str))]
+        # block LU in the 33..64 class with halves that are not multiples of the vector width (n = 42: N = 20, M-N = 22): the
+        # masked remainder paths of tmatmul / matmul under avx2 and avx512 (exact float AND double); own translation units
+        return [(resid, sorted(set(exact), key=str)), ([], [("blocklu", 42)], "avx-isas")]
     buckets = []
     for lo, hi in ((1, 5), (6, 9), (10, 12)):
         resid = [(s, n) for n in range(lo, hi + 1) for s in STRATS]
@@ -400,7 +430,11 @@ def real_plan(tier):
     buckets.append(([(s, n) for n in (32, 33) for s in ("simple", "simplepiv", "ut", "lut")],
                     [(s, n) for n in (32, 33) for s in ("simple", "simplepiv", "ut", "lut", "lazy")], "main-isas"))
     buckets.append(([("simple", 64), ("simple", 65), ("simplepiv", 65)], [("simple", 64), ("simple", 65), ("simplepiv", 65), ("ut", 65), ("lut", 65)], "main-isas"))
+    for n in (40, 42, 57):
+        buckets.append(([("blocklu", n)], [("blocklu", n)], "avx-isas"))
     return buckets
+
+BIGDENS = 4.0
 
 def exact_real_cases(tier, seed, buckets):
     """candidate integer matrices whose divisors are +-2^k; the model (fmodel) filters: DEF=1, DY=1, few bits.
@@ -431,7 +465,7 @@ def exact_real_cases(tier, seed, buckets):
             if s == "ut": A = fam_ut(n, rng)
             elif s == "lut": A = fam_lut(n, rng)
             else:
-                A = fam_ldu(n, leaves, rng, dens=3.0 if n <= 9 else 2.0)
+                A = fam_ldu(n, leaves, rng, dens=(0.7 * n if k % 2 else 3.0) if n <= 9 else (BIGDENS if s in ("blocklu", "blocklupiv") and n > 33 else 2.0))
                 if rng.random() < 0.4:      # a row scaled by 2: determinants +-2 instead of +-1
                     r = rng.randrange(n); A[r] = [2 * x for x in A[r]]
                 if s in PIV and n >= 2:
@@ -463,7 +497,8 @@ def real_groups(tier, seed, cfile):
         for t in ("float", "double"):
             for bi, bk in enumerate(buckets):
                 resid, exact = bk[0], bk[1]
-                if len(bk) > 2 and isa not in core.QUICK_ISAS: continue
+                if len(bk) > 2 and bk[2] == "main-isas" and isa not in core.QUICK_ISAS: continue
+                if len(bk) > 2 and bk[2] == "avx-isas" and isa not in ("avx2", "avx512"): continue
                 calls = []
                 for (s, n) in resid:
                     # family 1 (symmetric positive definite, prescribed condition number) keeps every leading block and Schur
@@ -473,7 +508,7 @@ def real_groups(tier, seed, cfile):
                     fams = (0, 2) if s in PIV else ((0, 1) if s not in ("ut", "lut") else (0,))
                     for f in fams:
                         calls.append("run_real<%s,c10r::%s,%d>(%d,%du);" % (t, s.upper(), n, f, rng.randrange(1, 1 << 30)))
-                if bi == 0:
+                if bi == 0 and resid:
                     calls += ["run_real_batched<%s,%d,%d>(%du);" % (t, nb, J, rng.randrange(1, 1 << 30)) for (nb, J) in ((3, 2), (2, 3), (4, 4))]
                 for (s, n) in exact:
                     if s == "batched": calls.append("REG_XB(%s, %d, %d);" % ((t,) + n))
